@@ -135,6 +135,14 @@ func applyPreset(w *model.World, preset string, seed []model.Write) {
 	case "sparse-3":
 		// one row in each of blocks 0, 1, 2 with holes below
 		w.SeedReplay(map[uint32][]model.Write{5: seed, 16384 + 7: seed, 32768 + 9: seed})
+	case "many-distinct":
+		// 200 rows with pairwise distinct values in column v (interning tables and maps
+		// grow past their initial size); every row is value-checked
+		var acts []model.Act
+		for i := 0; i < 200; i++ {
+			acts = append(acts, model.Act{Op: "insert", W: append(append([]model.Write{}, seed...), model.Write{Col: "v", V: model.Val{S: fmt.Sprintf("distinct-%03d", i)}})})
+		}
+		w.Txn(acts, false)
 	case "two-blocks":
 		w.SeedReplay(map[uint32][]model.Write{3: seed, 16384 + 1: seed})
 	default:
